@@ -101,7 +101,8 @@ async fn run_script(steps: Vec<String>) -> (String, Option<String>) {
             "S" => {
                 let view = Arc::new(Mutex::new(View { status: "pending".into(), lastres: "-".into(), ..Default::default() }));
                 views.push(view.clone());
-                let tmo: Option<u64> = if f[2] == "-" { None } else { Some(f[2].parse().unwrap()) };
+                // "max": Duration::MAX, the usual "practically unlimited" idiom (the deadline arithmetic must not overflow)
+                let tmo: Option<Duration> = if f[2] == "-" { None } else if f[2] == "max" { Some(Duration::MAX) } else { Some(Duration::from_millis(f[2].parse().unwrap())) };
                 let kind = f[1].to_string();
                 kinds.push(kind.clone());
                 sent_at_start.push(sent_by_id.get(&(views.len() as i64)).map(|x| x.len()).unwrap_or(0));
@@ -109,7 +110,7 @@ async fn run_script(steps: Vec<String>) -> (String, Option<String>) {
                     None => { view.lock().unwrap().status = "nohandle".into(); cmds.push(None); tasks.push(tokio::spawn(async {})); op_mid.push(-1); }
                     Some(h) => {
                         let mut l = h.clone();
-                        if let Some(t) = tmo { l.with_timeout(Duration::from_millis(t)); }
+                        if let Some(t) = tmo { l.with_timeout(t); }
                         op_mid.push(if table_reset { -2 } else { views.len() as i64 });
                         if kind.starts_with("ab") { abandoned.push(kind[2..].parse().unwrap()); }
                         if kind == "sd" || kind == "sa" {
@@ -279,8 +280,8 @@ fn gen_script(rng: &mut Rng, len: usize, flavour: u64) -> String {
         let roll = rng.below(100);
         if g.kinds.is_empty() || roll < 28 {
             let kind = match rng.below(10) { 0 | 1 | 2 | 3 => "single".to_string(), 4 | 5 => "sd".into(), 6 | 7 => "sa".into(), 8 => format!("ab{}", if g.kinds.is_empty() { 5 } else { 1 + rng.below(g.kinds.len() as u64 + 1) }), _ => if flavour == 3 && rng.chance(1, 3) { "unbind".into() } else { "single".into() } };
-            let tmo = if flavour == 2 || rng.chance(1, 5) { Some(*rng.pick(&[0u64, 1, 1000, 5000])) } else { None };
-            s.push(format!("S:{}:{}", kind, tmo.map(|t| t.to_string()).unwrap_or("-".into())));
+            let tmo = if flavour == 2 || rng.chance(1, 5) { Some(*rng.pick(&[0u64, 1, 1000, 5000, u64::MAX])) } else { None };
+            s.push(format!("S:{}:{}", kind, tmo.map(|t| if t == u64::MAX { "max".to_string() } else { t.to_string() }).unwrap_or("-".into())));
             g.kinds.push(kind); g.tmos.push(tmo); g.finished_streams.push(false);
         } else if roll < 62 {
             let (mid, kind) = pick_mid(rng, &g);
